@@ -122,6 +122,13 @@ class Gen:
     def pick(self, seq):
         return self.draw(st.sampled_from(seq))
 
+    def pick_name(self, names):
+        """a macro name out of `names`, preferring (3 of 4) names that are defined at this point"""
+        live = [n for n in names if self.state.get(n)]
+        if live and self.i(0, 3):
+            return self.pick(live)
+        return self.pick(names)
+
     def is_known(self, slug):
         if slug in self.known:
             Counter.hit(slug)
@@ -270,7 +277,7 @@ class Gen:
         if w <= 2:
             return [self.pick(PLAIN)]
         if w <= 4:
-            name = self.pick(OBJ)
+            name = self.pick_name(OBJ)
             if not self.mention(name):
                 return [self.pick(PLAIN)]
             if active and in_text and self.state.get(name):
@@ -289,7 +296,7 @@ class Gen:
             # bare function-like macro name, never directly followed by '('
             return [self.pick(list(FN) + list(VN)), ";"]
         if w == 10 and in_text and depth > 0 and not (self.mode == "rec" and self.in_arg):
-            al = self.pick(list(AL))
+            al = self.pick_name(list(AL))
             toks = [al] + self.call_args(FN[AL[al]], False, depth, params, variadic, in_text, active)
             if active and self.state.get(al):
                 self.cls.add("use:object-macro-naming-function-macro")
@@ -332,7 +339,7 @@ class Gen:
         return toks
 
     def invocation(self, depth, params, variadic, in_text, active):
-        name = self.pick(list(FN) + list(VN))
+        name = self.pick_name(list(FN) + list(VN))
         if not self.mention(name):
             return [self.pick(PLAIN)]
         isv = name in VN
@@ -465,7 +472,7 @@ class Gen:
         if form <= 1:
             taken = self.condition_line("if", active)
         else:
-            name = self.pick(OBJ + list(FN) + VAL + ["zz"] + list(VFN))
+            name = self.pick_name(OBJ + list(FN) + VAL + ["zz"] + list(VFN))
             isdef = self.state.get(name) is not None
             self.lines.append("#%s %s" % ("ifdef" if form == 2 else "ifndef", name))
             taken = isdef if form == 2 else not isdef
@@ -572,11 +579,11 @@ class C13(v_hyp.Spec):
         if lines and lines[-1] == "":
             lines.pop()
         mk = lambda ls: {"src": "\n".join(ls) + "\n", "cls": item.get("cls", [])}
-        lines = v_hyp.ddmin(lines, lambda ls: fails(mk(ls)))
-        for k in range(len(lines)):
+        lines = v_hyp.ddmin(lines, lambda ls: fails(mk(ls)), budget=200)
+        for k in range(min(len(lines), 12)):
             toks = lines[k].split(" ")
             if len(toks) > 2:
-                keep = v_hyp.ddmin(toks, lambda ts: fails(mk(lines[:k] + [" ".join(ts)] + lines[k + 1:])), budget=60)
+                keep = v_hyp.ddmin(toks, lambda ts: fails(mk(lines[:k] + [" ".join(ts)] + lines[k + 1:])), budget=40)
                 lines[k] = " ".join(keep)
         return mk(lines)
 
